@@ -148,6 +148,90 @@ PICKS = [
  ("phase0.GenesisFromEth1", "vEff == spec.MAX_EFFECTIVE_BALANCE", "genesis activation: validator.effective_balance == MAX_EFFECTIVE_BALANCE"),
  ("proto.ProtoArray.ApplyScoreChanges", "justifiedEpoch != pr.justifiedEpoch", "cached justified epoch refreshed when it differs"),
  ("proto.ProtoArray.ApplyScoreChanges", "finalizedEpoch != pr.finalizedEpoch", "cached finalized epoch refreshed when it differs"),
+ # ---- bulk review of the transition functions (second pass)
+ ("altair.ComputeEpochAttesterData", "out.PrevEpochUnslashedStake.SourceStake < spec.EFFECTIVE_BALANCE_INCREMENT", "get_total_balance: max(EFFECTIVE_BALANCE_INCREMENT, sum)"),
+ ("altair.ComputeEpochAttesterData", "out.PrevEpochUnslashedStake.TargetStake < spec.EFFECTIVE_BALANCE_INCREMENT", "get_total_balance: max(EFFECTIVE_BALANCE_INCREMENT, sum)"),
+ ("altair.ComputeEpochAttesterData", "out.PrevEpochUnslashedStake.HeadStake < spec.EFFECTIVE_BALANCE_INCREMENT", "get_total_balance: max(EFFECTIVE_BALANCE_INCREMENT, sum)"),
+ ("altair.ComputeEpochAttesterData", "out.CurrEpochUnslashedTargetStake < spec.EFFECTIVE_BALANCE_INCREMENT", "get_total_balance: max(EFFECTIVE_BALANCE_INCREMENT, sum)"),
+ ("phase0.ComputeEpochAttesterData", "out.PrevEpochUnslashedStake.SourceStake < spec.EFFECTIVE_BALANCE_INCREMENT", "get_total_balance: max(EFFECTIVE_BALANCE_INCREMENT, sum)"),
+ ("phase0.ComputeEpochAttesterData", "out.PrevEpochUnslashedStake.TargetStake < spec.EFFECTIVE_BALANCE_INCREMENT", "get_total_balance: max(EFFECTIVE_BALANCE_INCREMENT, sum)"),
+ ("phase0.ComputeEpochAttesterData", "out.PrevEpochUnslashedStake.HeadStake < spec.EFFECTIVE_BALANCE_INCREMENT", "get_total_balance: max(EFFECTIVE_BALANCE_INCREMENT, sum)"),
+ ("phase0.ComputeEpochAttesterData", "out.CurrEpochUnslashedTargetStake < spec.EFFECTIVE_BALANCE_INCREMENT", "get_total_balance: max(EFFECTIVE_BALANCE_INCREMENT, sum)"),
+ ("phase0.ComputeEpochAttesterData", "status.InclusionDelay > att.InclusionDelay", "the attestation with the lowest inclusion_delay counts"),
+ ("phase0.ComputeEpochAttesterData", "att.Data.Target.Root == actualTargetBlockRoot", "matching target: data.target.root == get_block_root(state, epoch)"),
+ ("phase0.ComputeEpochAttesterData", "att.Data.BeaconBlockRoot == attBlockRoot", "matching head: data.beacon_block_root == get_block_root_at_slot(state, data.slot)"),
+ ("altair.ComputeFlagDeltas", "unslashedParticipatingTotalBalance < spec.EFFECTIVE_BALANCE_INCREMENT", "get_total_balance: max(EFFECTIVE_BALANCE_INCREMENT, sum)"),
+ ("altair.ComputeFlagDeltas", "flag != TIMELY_HEAD_FLAG", "non-participants are penalised for source and target, not for head"),
+ ("altair.GetApplicableAttestationParticipationFlags", "data.Target.Epoch == currentEpoch", "justified checkpoint of the attestation's target epoch: current if target.epoch == current_epoch else previous"),
+ ("altair.GetApplicableAttestationParticipationFlags", "data.Source == justifiedCheckpoint", "is_matching_source = data.source == justified_checkpoint"),
+ ("altair.GetApplicableAttestationParticipationFlags", "expectedTarget == data.Target.Root", "is_matching_target: data.target.root == get_block_root(state, data.target.epoch)"),
+ ("altair.GetApplicableAttestationParticipationFlags", "expectedHead == data.BeaconBlockRoot", "is_matching_head: data.beacon_block_root == get_block_root_at_slot(state, data.slot)"),
+ ("altair.GetApplicableAttestationParticipationFlags", "inclusionDelay <= common.Slot(math.IntegerSquareroot(uint64(spec.SLOTS_PER_EPOCH)))", "timely source: inclusion_delay <= integer_squareroot(SLOTS_PER_EPOCH)"),
+ ("deneb.GetApplicableAttestationParticipationFlags", "data.Target.Epoch == currentEpoch", "as altair"),
+ ("deneb.GetApplicableAttestationParticipationFlags", "data.Source == justifiedCheckpoint", "as altair"),
+ ("deneb.GetApplicableAttestationParticipationFlags", "expectedTarget == data.Target.Root", "as altair"),
+ ("deneb.GetApplicableAttestationParticipationFlags", "expectedHead == data.BeaconBlockRoot", "as altair"),
+ ("deneb.GetApplicableAttestationParticipationFlags", "inclusionDelay <= common.Slot(math.IntegerSquareroot(uint64(spec.SLOTS_PER_EPOCH)))", "as altair"),
+ ("altair.ProcessInactivityUpdates", "attesterData.CurrEpoch == common.GENESIS_EPOCH", "process_inactivity_updates: skip the genesis epoch"),
+ ("altair.ProcessInactivityUpdates", "newScore > 0", "score -= min(1, score)"),
+ ("altair.ProcessInactivityUpdates", "newScore < uint64(spec.INACTIVITY_SCORE_RECOVERY_RATE)", "score -= min(INACTIVITY_SCORE_RECOVERY_RATE, score)"),
+ ("bellatrix.ProcessExecutionPayload", "executionPayload.ParentHash != parent.BlockHash", "payload.parent_hash == state.latest_execution_payload_header.block_hash"),
+ ("bellatrix.ProcessExecutionPayload", "executionPayload.PrevRandao != expectedMix", "payload.prev_randao == get_randao_mix(state, current_epoch)"),
+ ("bellatrix.ProcessExecutionPayload", "executionPayload.Timestamp != expectedTime", "payload.timestamp == compute_timestamp_at_slot(state, state.slot)"),
+ ("capella.ProcessWithdrawals", "len(expectedWithdrawals) != len(withdrawals)", "len(payload.withdrawals) == len(expected_withdrawals)"),
+ ("capella.ProcessWithdrawals", "withdrawal.Index != expectedWithdrawal.Index", "withdrawal == expected_withdrawal (index)"),
+ ("capella.ProcessWithdrawals", "withdrawal.ValidatorIndex != expectedWithdrawal.ValidatorIndex", "withdrawal == expected_withdrawal (validator_index)"),
+ ("capella.ProcessWithdrawals", "withdrawal.Amount != expectedWithdrawal.Amount", "withdrawal == expected_withdrawal (amount)"),
+ ("capella.ProcessWithdrawals", "len(expectedWithdrawals) > 0", "next_withdrawal_index advances only when there were withdrawals"),
+ ("common.ProcessHeader", "header.ParentRoot != latestRoot", "block.parent_root == hash_tree_root(state.latest_block_header)"),
+ ("deneb.ProcessAttestation", "data.Target.Epoch != spec.SlotToEpoch(data.Slot)", "data.target.epoch == compute_epoch_at_slot(data.slot)"),
+ ("phase0.ComputeRegistryProcessData", "flat.ActivationEligibilityEpoch == common.FAR_FUTURE_EPOCH", "is_eligible_for_activation_queue: activation_eligibility_epoch == FAR_FUTURE_EPOCH"),
+ ("phase0.ComputeRegistryProcessData", "flat.EffectiveBalance == spec.MAX_EFFECTIVE_BALANCE", "is_eligible_for_activation_queue: effective_balance == MAX_EFFECTIVE_BALANCE"),
+ ("phase0.ComputeRegistryProcessData", "flat.ActivationEpoch == common.FAR_FUTURE_EPOCH", "is_eligible_for_activation: activation_epoch == FAR_FUTURE_EPOCH"),
+ ("phase0.ComputeRegistryProcessData", "valIndexA < valIndexB", "activation queue order: by eligibility epoch, then by index"),
+ ("phase0.ComputeRegistryProcessData", "exit > exitQueueEnd", "exit queue end = max(exit epochs, compute_activation_exit_epoch(current))"),
+ ("phase0.ComputeRegistryProcessData", "exit == exitQueueEnd", "exit queue churn counts the validators exiting at the queue end"),
+ ("phase0.InitiateValidatorExit", "exitEp != common.FAR_FUTURE_EPOCH", "initiate_validator_exit: return if validator.exit_epoch != FAR_FUTURE_EPOCH"),
+ ("phase0.InitiateValidatorExit", "valExit == exitQueueEnd", "exit queue churn counts the validators exiting at the queue end"),
+ ("phase0.InitiateValidatorExit", "valExit > exitQueueEnd", "exit queue end = max(exit epochs, compute_activation_exit_epoch(current))"),
+ ("phase0.ProcessEffectiveBalanceUpdates", "spec.MAX_EFFECTIVE_BALANCE < effBalance", "effective_balance = min(balance - balance % INCREMENT, MAX_EFFECTIVE_BALANCE)"),
+ ("phase0.ProcessEpochSlashings", "totalActiveStake < spec.EFFECTIVE_BALANCE_INCREMENT", "get_total_balance: max(EFFECTIVE_BALANCE_INCREMENT, sum)"),
+ ("phase0.ProcessEpochSlashings", "totalActiveStake < slashingsWeight", "adjusted_total_slashing_balance = min(sum(slashings) * multiplier, total_balance)"),
+ ("phase0.ProcessEpochSlashings", "slashingsEpoch == flat.WithdrawableEpoch", "validator.slashed and epoch + EPOCHS_PER_SLASHINGS_VECTOR // 2 == validator.withdrawable_epoch"),
+ ("phase0.SlashValidator", "withdrawalEpoch > prevWithdrawalEpoch", "withdrawable_epoch = max(withdrawable_epoch, epoch + EPOCHS_PER_SLASHINGS_VECTOR)"),
+ ("phase0.ValidateProposerSlashingNoSignature", "ps.SignedHeader1.Message == ps.SignedHeader2.Message", "header_1 != header_2"),
+ # ---- fork choice / gossip / pools (second pass)
+ ("proto.ProtoArray.maybeUpdateBestChildAndDescendant", "child.Weight == bestChild.Weight", "equal weights are a tie (decided by root), not a win for either side"),
+ ("proto.ProtoArray.maybeUpdateBestChildAndDescendant", "bytes.Compare(child.Ref.Root[:], bestChild.Ref.Root[:]) > 0", "ties go to the greater root"),
+ ("proto.ProtoArray.maybeUpdateBestChildAndDescendant", "parent.BestChild == childIndex", "re-evaluating the current best child is the 'same child' case"),
+ ("proto.ProtoVoteStore.ComputeDeltas", "oldBal != newBal", "a changed balance moves weight even when the vote did not change"),
+ ("proto.ProtoVoteStore.ProcessAttestation", "targetEpoch == 0", "genesis-epoch votes are accepted when no vote was recorded yet"),
+ ("proto.ProtoArray.OnPrune", "anchorIndex == pr.indexOffset", "nothing to prune when the anchor already is the first node"),
+ ("proto.ProtoArray.OnPrune", "i < anchorIndex", "exactly the nodes before the anchor are pruned"),
+ ("proto.ProtoArray.OnPrune", "p.node.Ref.Root != anchorRoot", "the anchor's own block-slot entry survives the prune"),
+ ("proto.ProtoArray.CanonAtSlot", "anchorSlot > slot", "no canonical node before the anchor"),
+ ("proto.ProtoArray.CanonAtSlot", "head.Slot <= slot", "the head is the answer for slots at or after it"),
+ ("proto.ProtoArray.CanonAtSlot", "node.Ref.Slot == slot", "the node at the requested slot"),
+ ("proto.ProtoArray.CanonAtSlot", "node.Ref.Slot < slot", "walking back past the slot means it is empty on this chain"),
+ ("proto.ProtoArray.ClosestToSlot", "anchorSlot > slot", "no node before the anchor"),
+ ("proto.ProtoArray.ClosestToSlot", "min.Slot + 1 < max.Slot", "bisect until the bounds are adjacent"),
+ ("gossipval.ValidateAttestation", "att.Data.Target.Epoch != attEpoch", "[REJECT] attestation.data.target.epoch == compute_epoch_at_slot(attestation.data.slot)"),
+ ("gossipval.ValidateAttestation", "subnet != assignedSubnet", "[REJECT] the attestation is for the correct subnet"),
+ ("gossipval.ValidateAggregateAndProof", "att.Data.Target.Epoch != attEpoch", "[REJECT] aggregate.data.target.epoch == compute_epoch_at_slot(aggregate.data.slot)"),
+ ("gossipval.ValidateBeaconBlock", "proposer != block.ProposerIndex", "[REJECT] the block is proposed by the expected proposer_index"),
+ ("gossipval.ValidateSyncContribAndProof", "valIndex == contribAndProof.AggregatorIndex", "[REJECT] the aggregator's validator index is in the declared subcommittee"),
+ ("pool.SyncCommitteePool.Reset", "sp.currentSlot == slot + 1", "one slot back"),
+ ("pool.SyncCommitteePool.Reset", "sp.currentSlot == slot", "same slot: nothing to rotate"),
+ ("pool.SyncCommitteePool.Reset", "sp.currentSlot + 1 == slot", "one slot forward"),
+ ("pool.SyncCommitteePool.AddSyncCommitteeMessage", "sp.currentSlot == msg.Slot + 1", "previous-slot buffer"),
+ ("pool.SyncCommitteePool.AddSyncCommitteeMessage", "sp.currentSlot == msg.Slot", "current-slot buffer"),
+ ("pool.SyncCommitteePool.AddSyncCommitteeMessage", "sp.currentSlot + 1 == msg.Slot", "next-slot buffer"),
+ ("pool.SyncCommitteePool.AddSyncCommitteeContribution", "sp.currentSlot == contrib.Slot + 1", "previous-slot buffer"),
+ ("pool.SyncCommitteePool.AddSyncCommitteeContribution", "sp.currentSlot == contrib.Slot", "current-slot buffer"),
+ ("pool.SyncCommitteePool.AddSyncCommitteeContribution", "sp.currentSlot + 1 == contrib.Slot", "next-slot buffer"),
+ ("pool.AttestationPool.AddAttestation", "existing.DataRoot != dataRoot", "a second vote by the same validator in the same epoch for other data is a double vote"),
+ ("pool.AttestationPool.AddAttestation", "count == 1", "single-bit attestations are tracked per validator"),
+ ("pool.AttestationPool.AddAttestation", "count == 0", "an attestation without participants is refused"),
 ]
 
 TYPED = [
